@@ -648,9 +648,11 @@ class ParsedObject:
 
 
 def _hash(value):
-    # A plain tuple is always hashed item by item, so that it hashes like an
-    # equal tuple that has an unhashable item.
-    if value.__class__ is tuple:
+    # A tuple is always hashed item by item, so that it hashes like an equal
+    # tuple that has an unhashable item. (This includes a named tuple, which is
+    # equal to the plain tuple of its items, but not a class with a hash of its
+    # own.)
+    if isinstance(value, tuple) and value.__class__.__hash__ is tuple.__hash__:
         return hash(tuple([_hash(item) for item in value]))
 
     try:
